@@ -5,6 +5,7 @@ import BevySyncModel.Props.C13
 import BevySyncModel.Props.C14
 import BevySyncModel.Props.C16
 import BevySyncModel.Props.C17
+import BevySyncModel.Props.C01
 import BevySyncModel.Props.C02
 import BevySyncModel.Props.C04
 import BevySyncModel.Props.C08
